@@ -434,8 +434,16 @@ func ruleDumpSkip(w *World, r *Report) {
 			r.Check(poss != nil && !poss[k.event], rule, w.InstrPos(c), w.Name(an), describe(c), "a child index is collected only for a node whose kind is not event", "event nodes are enumerated as children: the decompiled text depends on event mode")
 			// nothing else filters children: the dominating conditions are the loop guard, the parent-index match and the kind test
 			var extra []string
+			var loopHdr *ssa.BasicBlock
+			if acc, isPhi := c.Call.Args[0].(*ssa.Phi); isPhi {
+				loopHdr = acc.Block()
+			}
 			for _, f := range factsAt(c.Block()) {
 				if _, _, _, okk := k.kindTest(f.Cond); okk {
+					continue
+				}
+				// decided before the enumeration starts: holds for every candidate alike, selects none
+				if loopHdr != nil && f.If != nil && (f.If.Parent() != loopHdr.Parent() || (f.If.Block() != loopHdr && f.If.Block().Dominates(loopHdr))) {
 					continue
 				}
 				if bo, ok := f.Cond.(*ssa.BinOp); ok {
